@@ -421,10 +421,11 @@ class TranslateTag(Tag):
                         token=node.token,
                     )
 
-                if "(" in var or ")" in var:
+                if "(" in var or ")" in var or "%%" in var:
                     # Can't be written as a `%(name)s` format key.
                     raise TranslationSyntaxError(
-                        f"unexpected parentheses in translation variable '{expr}'",
+                        "unexpected parentheses or doubled percent sign in "
+                        f"translation variable '{expr}'",
                         token=node.token,
                     )
 
